@@ -9,6 +9,7 @@ import (
 	"io"
 	"net"
 	"net/http"
+	"os"
 	"strings"
 	"sync"
 	"sync/atomic"
@@ -717,13 +718,24 @@ func c16Outage(c *Ctx, idx int) {
 	r.NonTrivial(fmt.Sprintf("outage/h%d", hosts))
 }
 
+var freePortSeq int32
+
+// freePort returns a port on 127.0.0.1 that is probed and released before its user binds it. It lies below the kernel's
+// ephemeral range (so no outgoing connection or ":0" listener of any process can take it in between) and is a function of
+// (pid, sequence number), so workers of this or a concurrent run are handed other ports.
 func freePort() int {
-	l, err := net.Listen("tcp", "127.0.0.1:0")
-	if err != nil {
-		return 0
+	pid := os.Getpid()
+	for i := 0; i < 200; i++ {
+		n := int(atomic.AddInt32(&freePortSeq, 1))
+		port := 20000 + (pid*131+n*7)%12000
+		l, err := net.Listen("tcp", fmt.Sprintf("127.0.0.1:%d", port))
+		if err != nil {
+			continue
+		}
+		_ = l.Close()
+		return port
 	}
-	defer l.Close()
-	return l.Addr().(*net.TCPAddr).Port
+	return 0
 }
 
 func c16Readiness(c *Ctx, idx int) {
